@@ -137,7 +137,7 @@ static void random_case(void)
 
 struct case_budget chk_budget(const char *tier)
 {
-        struct case_budget b = { (long)PER_TS * 3 * 5 * 4, strcmp(tier, "thorough") == 0 ? 4000000 : 150000 };
+        struct case_budget b = { (long)PER_TS * 3 * 5 * 4, strcmp(tier, "thorough") == 0 ? 30000000 : 600000 };
         return b;
 }
 void chk_run_case(uint64_t seed, long c, bool is_sweep) { (void)seed; ARG_NOTE[0] = 0; if (is_sweep) sweep_case(c); else random_case(); }
